@@ -25,9 +25,12 @@ class BitcoinVM(VM):
     INSTRUCTION_LOOKUP = make_instruction_lookup(opcodes.OPCODE_LIST)
     ScriptStreamer = BitcoinScriptStreamer
 
-    def pop_int(self) -> int:
+    def pop_int(self, max_size: int = 4) -> int:
+        blob = self.pop()
+        if len(blob) > max_size:
+            raise ScriptError("script number overflow", errno.UNKNOWN_ERROR)
         return self.IntStreamer.int_from_script_bytes(  # type: ignore[no-any-return]
-            self.pop(), require_minimal=bool(self.flags & VERIFY_MINIMALDATA)
+            blob, require_minimal=bool(self.flags & VERIFY_MINIMALDATA)
         )
 
     def pop_nonnegative(self) -> int:
